@@ -12,7 +12,7 @@ PROPERTY = "C17"
 LEVEL = "exploration"
 NEED_EXT = True
 REQUIRED = ["fit.members_keep_their_rows", "predict.after_refit_same_batch_object", "fit.sample_size", "fit.alignment", "fit.eligibility", "predict.mean", "predict.sorted",
-            "predict.all_vs_members", "predict.after_set_params"]
+            "predict.all_vs_members", "predict.after_set_params", "predict.after_refused_refit", "fit.with_replacement"]
 RULE = ("n in {1,2,3,5,8,10,20,50} x alpha in {0.3,0.5,1,1.5} x n_estimators x weights x n_jobs x base regressor; "
         "eligibility judged only when the union bound n*(1-1/n)^draws < 1e-9; non-trivial = n >= 3 and "
         "n_estimators >= 2; distinct = distinct configuration")
@@ -175,6 +175,24 @@ def run_case(case, ctx):
             ctx.violation(K + "fit/weight-invented", "weights passed although none were given", cfg=cfg)
         drawn.update(e.ids_.tolist())
         total += len(e.ids_)
+    # drawn WITH replacement: under independent uniform draws a member of s rows is free of repeated rows with
+    # probability prod(1 - i/n), and holds every one of the n rows with the coupon-collector probability; when all m
+    # members show one of these patterns although that has probability below 1e-9, the rows were not drawn that way
+    sizes = [len(e.ids_) for e in ests if hasattr(e, "ids_")]
+    if n > 1 and sizes and len(set(sizes)) == 1 and len(sizes) == len(ests):
+        s_ = sizes[0]
+        p_nodup = float(numpy.prod([1.0 - i / n for i in range(s_)])) if s_ <= n else 0.0
+        p_all = float(sum((-1) ** j * math.comb(n, j) * (1.0 - j / n) ** s_ for j in range(n + 1))) if s_ >= n else 0.0
+        p_all = min(max(p_all, 0.0), 1.0)
+        ctx.hit("fit.with_replacement")
+        if s_ >= 2 and p_nodup ** len(ests) < 1e-9 and all(len(set(e.ids_.tolist())) == len(e.ids_) for e in ests):
+            ctx.violation(K + "fit/drawn-without-replacement", "none of the %d members of %d rows (n=%d) holds a row "
+                          "twice (probability %.1e under draws with replacement)" % (
+                              len(ests), s_, n, p_nodup ** len(ests)), cfg=cfg)
+        if s_ >= n and p_all ** len(ests) < 1e-9 and all(set(e.ids_.tolist()) == idset for e in ests):
+            ctx.violation(K + "fit/every-member-holds-every-row", "each of the %d members of %d rows holds all %d "
+                          "training rows (probability %.1e under draws with replacement): only the surplus is drawn" % (
+                              len(ests), s_, n, p_all ** len(ests)), cfg=cfg)
     if n > 1 and total > 0:
         bound = n * (1 - 1.0 / n) ** total
         if bound < 1e-9:
@@ -299,6 +317,42 @@ def run_case(case, ctx):
         if not numpy.array_equal(ps, numpy.sort(members, axis=1)):
             ctx.violation(K + "predict/sorted-differs/after-set_params", "predict_sorted changed after set_params",
                           cfg=cfg)
+    # another number of members is asked for and that refit is REFUSED by the base regressor (a NaN target); if the
+    # object still predicts, its prediction is the mean of what predict_all / predict_sorted say its members predict
+    for m2 in (m + 3, max(1, m // 2) if m > 1 else 4):
+        ir.set_params(n_estimators=m2)
+        y_nan = numpy.array(y, dtype=float, copy=True)
+        y_nan[:] = numpy.nan
+        try:
+            ir.fit(X, y_nan)
+            refused = False
+        except Exception:
+            refused = True
+        if not refused:
+            ctx.excluded("refused-refit history: the base regressor accepted NaN targets")
+            break
+        Qh = q["float64"]
+        try:
+            p = numpy.asarray(ir.predict(Qh), dtype=float)
+            allp = numpy.asarray(ir.predict_all(Qh), dtype=float)
+            ps = numpy.asarray(ir.predict_sorted(Qh), dtype=float)
+        except Exception:
+            ctx.hit("predict.after_refused_refit")
+            ctx.excluded("after a refused refit the object refuses to predict")
+            continue
+        ctx.hit("predict.after_refused_refit")
+        if allp.ndim != 2 or allp.shape[1] == 0:
+            ctx.excluded("after a refused refit the object has no member")
+            continue
+        if not numpy.allclose(p, allp.mean(axis=1), rtol=1e-12, atol=1e-12, equal_nan=True) or not numpy.array_equal(
+                ps, numpy.sort(allp, axis=1), equal_nan=True):
+            ctx.violation(K + "predict/not-mean/after-refused-refit", "fit with %d members, set_params(n_estimators=%d), a "
+                          "refit the base regressor refuses: predict is not the mean of the %d individual predictions "
+                          "predict_all returns (or predict_sorted is not their sorted rows)" % (m, m2, allp.shape[1]),
+                          cfg=cfg, got=p[:3], expected=allp.mean(axis=1)[:3])
+        elif not ((ps[:, 0] <= p + 1e-9 * (1 + numpy.abs(p))) & (p <= ps[:, -1] + 1e-9 * (1 + numpy.abs(p)))).all():
+            ctx.violation(K + "predict/mean-outside-min-max/after-refused-refit", "min <= predict <= max violated after a "
+                          "refused refit", cfg=cfg)
     ir.set_params(n_estimators=m)
     # a base regressor that answers NaN outside the range of ids it was trained on (a radius-neighbours model with no
     # neighbour): predict is the mean of ALL individual predictions, so NaN wherever one member says NaN
